@@ -18,6 +18,18 @@ stdin : {"seq": [item, …], "statediff": bool, "audit": bool (strengthening rou
 stdout: {"results": [ {"ok": true, "files": {relpath: text}} | {"ok": false, "exc": cls, "msg": text} ],
          "statediff": [changed global paths] }
 Every path of the temporary root is replaced by <ROOT>; the process works inside the root (cwd).
+
+Strengthening round 4:
+  * item key "rel": true  - PYJMC / CLI are given the target (and output) RELATIVE to the root folder the process started in, as an API user
+    or a shell started in the workspace does;
+  * AMBIENT process state (os.getcwd(), os.environ, sys.path, sys.modules, signal handlers, locale, warnings filters, logging configuration,
+    recursion limit / excepthook / umask) is snapshotted right before and right after every compile, successful or failing:
+    result["os_changed"] = {component: {before, after}} when they differ (lazily imported stdlib / jmc / site-packages modules are listed
+    under "modules_imported", not as a change).  The runner no longer puts the working directory back after a compile: what a compile
+    leaves behind is what the next compile of the sequence starts from;
+  * request key "namereads": true - the jmc.txt name attributes of DataPack are wrapped in recording descriptors before every compile; an
+    assignment (read_cert) replaces the descriptor, so every recorded read is a read of the name the PREVIOUS compile left:
+    result["stale_reads"] = [{attr, stack: [file:function:line ...]}] (reads inside read_cert itself are the modelled default source).
 """
 import io
 import json
@@ -59,6 +71,8 @@ def run_item(item, root: Path, counter, argstore=None):
         counter[item["id"]] = counter.get(item["id"], 0) + 1
         shutil.rmtree(proj)
     signal.alarm(20)
+    snap = {}
+    mine = None             # the working directory THIS function chose for the compile (TEST with files), undone below if the compile kept it
     try:
         entry = item["entry"]
         if entry != "TEST" or item.get("files"):        # a virtual build without further files touches no folder
@@ -70,6 +84,7 @@ def run_item(item, root: Path, counter, argstore=None):
         if entry == "TEST":
             if item.get("files"):
                 os.chdir(proj)
+                mine = str(proj)
             from jmc.compile.test_compile import JMCTestPack
             store = argstore.setdefault(item["id"], {}) if argstore is not None else {}
             p = store.get("pack")
@@ -84,17 +99,21 @@ def run_item(item, root: Path, counter, argstore=None):
                 if item.get("envs"):
                     store["envs"] = list(item["envs"])
                     p.set_envs(store["envs"])
+            snap["before"] = os_snapshot()
             return {"ok": True, "files": dict(p.build().built)}
         (proj / "main.jmc").write_text(item["src"], encoding="utf-8")
         if item.get("header") is not None:
             (proj / "main.hjmc").write_text(item["header"], encoding="utf-8")
+        # round 4: the target as the caller would write it - absolute, or relative to the folder the process was started in
+        target = os.path.relpath(proj / "main.jmc", root) if item.get("rel") else str(proj / "main.jmc")
         if entry == "PYJMC":
             from jmc.api import PyJMC
             kw = {}
             store = argstore.setdefault(item["id"], {}) if argstore is not None else {}
             if item.get("cert") is not None:
                 kw["jmc_txt"] = store.setdefault("jmc_txt", cert_dict(item["cert"]))
-            pj = PyJMC(item.get("namespace", "TEST"), item.get("desc", "d"), item.get("pack_format", "48"), str(proj / "main.jmc"),
+            snap["before"] = os_snapshot()
+            pj = PyJMC(item.get("namespace", "TEST"), item.get("desc", "d"), item.get("pack_format", "48"), target,
                        envs=store.setdefault("envs", list(item.get("envs") or [])), **kw)
             return {"ok": True, "files": {Path(k).as_posix(): v for k, v in pj.files.items()}}
         if entry == "CLI":
@@ -111,9 +130,11 @@ def run_item(item, root: Path, counter, argstore=None):
                     f.parent.mkdir(parents=True, exist_ok=True)
                     f.write_text(text, encoding="utf-8")
             cfg = Configuration(GlobalData(), namespace=ns, description=item.get("desc", "d"), pack_format=item.get("pack_format", "48"),
-                                target=proj / "main.jmc", output=out)
+                                target=Path(target), output=Path(os.path.relpath(out, root)) if item.get("rel") else out)
+            snap["before"] = os_snapshot()
             Header().envs = list(item.get("envs") or [])
             compile_jmc(cfg, debug=True)        # as terminal_commands.compile_ does (evaluates repr(datapack) for the log)
+            snap["after"] = os_snapshot()       # (before the output folder is read back)
             files = {}
             for f in sorted(out.rglob("*")):
                 if f.is_file():
@@ -127,7 +148,159 @@ def run_item(item, root: Path, counter, argstore=None):
         return {"ok": False, "exc": type(e).__name__, "msg": str(e)[:3000]}
     finally:
         signal.alarm(0)
-        os.chdir(root)
+        if "before" in snap:
+            LAST_OS_CHANGE[0] = os_diff(snap["before"], snap.get("after") or os_snapshot(), str(root))
+        else:
+            LAST_OS_CHANGE[0] = None
+        # the working directory this function chose is undone; one that the COMPILE left behind is not (round 4: no masking)
+        try:
+            here = os.getcwd()
+        except OSError:
+            here = None
+        if mine is not None and here == mine:
+            os.chdir(root)
+
+
+# ----------------------------------------------------------------------------- ambient process state (strengthening round 4)
+
+LAST_OS_CHANGE = [None]
+
+
+def os_snapshot():
+    import gc
+    import locale
+    import logging
+    import threading
+    import warnings
+    snap = {}
+    try:
+        snap["cwd"] = os.getcwd()
+    except OSError as e:
+        snap["cwd"] = "<%s>" % type(e).__name__
+    snap["environ"] = dict(os.environ)
+    snap["sys.path"] = list(sys.path)
+    snap["sys.modules"] = set(sys.modules)
+    sigs = {}
+    for sg in sorted(signal.valid_signals()):
+        try:
+            h = signal.getsignal(sg)
+        except (ValueError, OSError):
+            continue
+        sigs[int(sg)] = getattr(h, "__qualname__", None) or repr(h)
+    snap["signal"] = sigs
+    try:
+        snap["locale"] = locale.setlocale(locale.LC_ALL)
+    except Exception as e:  # noqa
+        snap["locale"] = "<%s>" % type(e).__name__
+    snap["warnings"] = [repr(f) for f in warnings.filters]
+    loggers = {}
+    for name, lg in list(logging.root.manager.loggerDict.items()):
+        if isinstance(lg, logging.Logger):
+            loggers[name] = [lg.level, lg.disabled, lg.propagate, [type(h).__name__ + ":" + str(h.level) for h in lg.handlers]]
+    snap["logging"] = {"disable": logging.root.manager.disable, "root": [logging.root.level, [type(h).__name__ for h in logging.root.handlers]],
+                       "loggers": loggers}
+    um = os.umask(0)
+    os.umask(um)
+    snap["misc"] = {"recursionlimit": sys.getrecursionlimit(), "excepthook": getattr(sys.excepthook, "__qualname__", repr(sys.excepthook)),
+                    "stdout": id(sys.stdout), "stderr": id(sys.stderr), "stdin": id(sys.stdin), "umask": um, "threads": threading.active_count(),
+                    "gc": gc.isenabled(), "argv": list(sys.argv), "displayhook": getattr(sys.displayhook, "__qualname__", "?"),
+                    "builtins": len(vars(__import__("builtins")))}
+    return snap
+
+
+def _module_origin(name, root):
+    """'benign' for a lazily imported module of the standard library / the jmc package / site-packages, else where it comes from"""
+    top = name.split(".")[0]
+    if top == "jmc" or top in sys.stdlib_module_names or top.startswith("_"):
+        return "benign"
+    mod = sys.modules.get(name)
+    f = getattr(mod, "__file__", None) or ""
+    if "site-packages" in f or "dist-packages" in f:
+        return "benign"
+    return f.replace(root, "<ROOT>") or "<no file>"
+
+
+def os_diff(a, b, root):
+    out = {}
+    for k in ("cwd", "environ", "sys.path", "signal", "locale", "warnings", "misc"):
+        if a[k] != b[k]:
+            if isinstance(a[k], dict):
+                keys = sorted(x for x in set(a[k]) | set(b[k]) if a[k].get(x) != b[k].get(x))
+                out[k] = {"before": {str(x): a[k].get(x) for x in keys[:6]}, "after": {str(x): b[k].get(x) for x in keys[:6]}}
+            else:
+                out[k] = {"before": a[k], "after": b[k]}
+    gone = sorted(a["sys.modules"] - b["sys.modules"])
+    new = sorted(b["sys.modules"] - a["sys.modules"])
+    foreign = {m: _module_origin(m, root) for m in new}
+    foreign = {m: o for m, o in foreign.items() if o != "benign"}
+    if gone or foreign:
+        out["sys.modules"] = {"before": {"removed": gone[:6]}, "after": {"added_from_outside_stdlib_jmc_sitepackages": dict(list(foreign.items())[:6])}}
+    la, lb = a["logging"], b["logging"]
+    ldiff = {}
+    if la["disable"] != lb["disable"] or la["root"] != lb["root"]:
+        ldiff["root"] = {"before": [la["disable"], la["root"]], "after": [lb["disable"], lb["root"]]}
+    for name in sorted(set(la["loggers"]) | set(lb["loggers"])):
+        x, y = la["loggers"].get(name), lb["loggers"].get(name)
+        if x != y and not (x is None and (name == "jmc" or name.startswith("jmc.")) and name in b["sys.modules"] and name not in a["sys.modules"]):
+            if x is None and name.split(".")[0] in sys.stdlib_module_names:
+                continue            # a logger of a lazily imported standard-library module
+            ldiff[name] = {"before": x, "after": y}
+    if ldiff:
+        out["logging"] = {"before": {k: v["before"] for k, v in list(ldiff.items())[:4]}, "after": {k: v["after"] for k, v in list(ldiff.items())[:4]}}
+    res = json.loads(json.dumps(out, default=str).replace(root, "<ROOT>")) if out else {}
+    if new:
+        res_new = [m for m in new if m not in foreign]
+        if res_new:
+            res = dict(res)
+            res["modules_imported"] = res_new[:40]
+    return res
+
+
+# ----------------------------------------------------------------------------- reads of a jmc.txt name before read_cert assigned it (round 4)
+
+class StaleName:
+    """class-level descriptor: DataPack.<attr> (and <instance>.<attr>) reads go through __get__ until `DataPack.<attr> = …` replaces it"""
+
+    def __init__(self, attr, value, log):
+        self.attr, self.value, self.log = attr, value, log
+
+    def __get__(self, inst, owner):
+        stack = []
+        f = sys._getframe(1)
+        while f is not None and len(stack) < 6:
+            fn = f.f_code.co_filename.replace(os.sep, "/")
+            if "/jmc/" in fn:
+                stack.append("%s:%s:%d" % (fn.split("/jmc/", 1)[1], f.f_code.co_name, f.f_lineno))
+            f = f.f_back
+        if len(self.log) < 50:
+            self.log.append({"attr": self.attr, "stack": stack})
+        return self.value
+
+
+class NameReads:
+    def __init__(self, attrs):
+        self.attrs, self.log = list(attrs), []
+
+    def begin(self):
+        from jmc.compile.datapack import DataPack
+        self.log = []
+        for a in self.attrs:
+            cur = DataPack.__dict__.get(a)
+            if cur is None:
+                continue
+            value = cur.value if isinstance(cur, StaleName) else cur
+            type.__setattr__(DataPack, a, StaleName(a, value, self.log))
+
+    def end(self):
+        seen, out = set(), []
+        for r in self.log:
+            if any(x.startswith("compile/compiling.py:read_cert:") for x in r["stack"]):
+                continue        # the default source of read_cert: modelled (SrcInputOrPrev) and judged by the regenerated obligation
+            key = (r["attr"], tuple(r["stack"][:2]))
+            if key not in seen:
+                seen.add(key)
+                out.append(r)
+        return out[:12]
 
 
 # ----------------------------------------------------------------------------- global-state fingerprint
@@ -687,6 +860,8 @@ def main():
         audit = CacheAudit() if req.get("audit") else None
         if audit:
             audit.install()
+        namereads = NameReads(req.get("name_attrs") or ["load_name", "tick_name", "private_name", "var_name", "int_name", "storage_name"]) \
+            if req.get("namereads") else None
         before = global_state() if req.get("statediff") else None
         counter = {}
         argstore = {} if req.get("reuse_args") else None
@@ -696,7 +871,17 @@ def main():
                 tracer.begin()
             if audit:
                 audit.begin(index, item["id"])
+            if namereads:
+                namereads.begin()
             r = run_item(item, root, counter, argstore)
+            if LAST_OS_CHANGE[0]:
+                imported = LAST_OS_CHANGE[0].pop("modules_imported", None)
+                if imported:
+                    r["modules_imported"] = imported
+                if LAST_OS_CHANGE[0]:
+                    r["os_changed"] = LAST_OS_CHANGE[0]
+            if namereads:
+                r["stale_reads"] = namereads.end()
             if audit:
                 signal.alarm(60)
                 try:
